@@ -559,6 +559,9 @@ type SeqStep struct {
 	Pack       gpack.Case `json:"pack"`
 	SetLicense string     `json:"set_license,omitempty"` // hex; non-empty: the client's default license is changed before this send
 	Override   string     `json:"override,omitempty"`    // hex; per-send license
+	// Bad: before this step the client is given a pack that cannot be encoded (log record without a tag map: its Write
+	// fails half way). The send fails; nothing of it may reach the wire
+	Bad bool `json:"bad,omitempty"`
 }
 
 type SeqCase struct {
@@ -587,8 +590,17 @@ func runFrameSeq(c SeqCase) *pbt.Result {
 			connCh <- conn
 		}
 	}()
-	changes := 0
+	changes, bads := 0, 0
 	for i, st := range c.Steps {
+		if st.Bad {
+			bp := pack.NewLogSinkPack()
+			bp.Category, bp.Content, bp.Tags = "unencodable", "this record has no tag map", nil
+			bads++
+			returned, _ := pbt.WithTimeout(20*time.Second, func() { cl.Send(bp) })
+			if !returned {
+				return pbt.Fail("Send of a pack that cannot be encoded (before frame %d) did not return within 20 s", i)
+			}
+		}
 		gpack.ResetAux()
 		p, recs := build(st.Pack)
 		body := refBody(p, recs)
@@ -641,12 +653,12 @@ func runFrameSeq(c SeqCase) *pbt.Result {
 		}
 		return pbt.Fail("frame %d of the sequence differs from the reference at byte %d of the frame (bytes 2..9 project code, 10..17 hash of the license in effect for that send, 18..21 length)", fi, k-off)
 	}
-	return &pbt.Result{NT: changes >= 1 && len(c.Steps) >= 2, Classes: []string{fmt.Sprintf("license-changes=%d", changes), fmt.Sprintf("frames=%d", len(c.Steps))}, Key: want}
+	return &pbt.Result{NT: changes >= 1 && len(c.Steps) >= 2, Classes: []string{fmt.Sprintf("license-changes=%d", changes), fmt.Sprintf("frames=%d", len(c.Steps)), fmt.Sprintf("unencodable-packs-in-between=%d", bads)}, Key: want}
 }
 
 var specFrameSeq = pbt.Register(pbt.Spec[SeqCase]{
 	Prop: "C05", Name: "frame-sequence",
-	Rule:  "2-6 packs sent one after the other by ONE client over one connection, with the client's default license changed between sends in some steps and per-send licenses in others; the byte stream received must be the concatenation of the reference frames, each carrying the hash of the license in effect for that send; non-trivial = at least one license change and two frames; distinct by stream bytes",
+	Rule:  "2-6 packs sent one after the other by ONE client over one connection, with the client's default license changed between sends in some steps and per-send licenses in others, and before one step in six a pack that cannot be encoded (its send fails, nothing of it may reach the wire); the byte stream received must be the concatenation of the reference frames, each carrying the hash of the license in effect for that send; non-trivial = at least one license change and two frames; distinct by stream bytes",
 	Quick: 160, Thorough: 5000,
 	Draw: func(t *rapid.T) SeqCase {
 		lic := func(label string) string {
@@ -662,6 +674,7 @@ var specFrameSeq = pbt.Register(pbt.Spec[SeqCase]{
 			case 1:
 				st.Override = lic("override")
 			}
+			st.Bad = rapid.IntRange(0, 5).Draw(t, "bad") == 0
 			c.Steps = append(c.Steps, st)
 		}
 		return c
